@@ -18,11 +18,11 @@ type Universe struct {
 	anon      int
 	fresh     int
 	// assumptions/abstractions actually used, for evidence
-	notes     map[string]bool
+	notes      map[string]bool
 	viaPointer bool
-	curKey    string
-	strLits   []string
-	sentinels []string
+	curKey     string
+	strLits    []string
+	sentinels  []string
 }
 
 func newUniverse(bv bool) *Universe {
@@ -369,7 +369,7 @@ func slArr(s Term) Term {
 	return Term{fmt.Sprintf("(arr_%s %s)", s.Sort.Name, s.S), &Sort{Name: "(Array Int " + s.Sort.Elem.Name + ")", Kind: KSMTArray, Elem: s.Sort.Elem}}
 }
 func slMk(sort *Sort, arr, n Term) Term { return mk(sort, "(mk_%s %s %s)", sort.Name, arr.S, n.S) }
-func slAt(s Term, i Term) Term       { return sel(slArr(s), i, s.Sort.Elem) }
+func slAt(s Term, i Term) Term          { return sel(slArr(s), i, s.Sort.Elem) }
 
 // struct helpers
 func (u *Universe) getField(x Term, name string) (Term, bool) {
